@@ -4,7 +4,7 @@ from __future__ import annotations
 import json
 
 
-def run_sched_witness(w, props, schedule=None):
+def run_sched_witness(w, props, schedule=None, executor_kw=None):
     from harness.control import World
     from harness.explore import run_once
 
@@ -16,7 +16,7 @@ def run_sched_witness(w, props, schedule=None):
             n["active"] = (n["active"][0], list(n["active"][1]))
         nodes.append(n)
     world = World(nodes, max_concurrency=w.get("max_concurrency", 2))
-    viol, ch, ctrl, outcome = run_once(world, schedule if schedule is not None else w.get("schedule", []), w.get("is_async", False), props)
+    viol, ch, ctrl, outcome = run_once(world, schedule if schedule is not None else w.get("schedule", []), w.get("is_async", False), props, executor_kw=executor_kw)
     return viol
 
 
@@ -31,7 +31,7 @@ def replay_file(path):
         return 1
     kind = fi.get("kind", "sched")
     if kind == "sched":
-        viol = run_sched_witness(dict(fi["world"], is_async=fi.get("is_async", False)), [pid], fi.get("schedule", []))
+        viol = run_sched_witness(dict(fi["world"], is_async=fi.get("is_async", False)), [pid], fi.get("schedule", []), fi.get("executor_kw"))
         msgs = viol.get(pid, [])
         for m in msgs:
             print("  ", m)
